@@ -1,5 +1,5 @@
 (* C12 — the statements exported to Properties/C12.v *)
-From V Require Import SQLCons.Model SQLCons.Basics SQLCons.Steps SQLCons.Frame SQLCons.RowInv
+From V Require Import SQLCons.Model SQLCons.Spec SQLCons.Basics SQLCons.Steps SQLCons.Frame SQLCons.RowInv
      SQLCons.Unique SQLCons.Refuted SQLCons.Insert.
 From Coq Require Import ZArith Lia.
 Open Scope N_scope.
